@@ -11,6 +11,7 @@ package main
 import (
 	"errors"
 	"fmt"
+	"io"
 	"math/rand"
 	"net"
 	"os"
@@ -147,13 +148,14 @@ type env struct {
 	feats    map[string]bool
 	closelog []int       // ids of conns whose Close() was called, in call order (under mu)
 	ci       *ciState    // a CloseIdleConnections call in progress (cibegin ... cfin)
+	max0     int         // MaxConns the trace started with (e.d.Max follows SetMaxConns)
 	panicked atomic.Bool // the implementation panicked in a goroutine of the harness
 	broken   bool        // the watchdog fired: the trace stops here (goroutines of this case may stay blocked)
 	flagged  bool        // some observation had live+dials > max while a blocked Close was outstanding
 }
 
 func newEnv(d desc) *env {
-	e := &env{d: d, wids: map[any]int{}, autoThr: map[any]*thr{}, feats: map[string]bool{}}
+	e := &env{d: d, max0: d.Max, wids: map[any]int{}, autoThr: map[any]*thr{}, feats: map[string]bool{}}
 	hc := &fasthttp.HostClient{Addr: "verif:80", MaxConns: d.Max}
 	if d.Wait {
 		hc.MaxConnWaitTimeout = time.Hour
@@ -688,6 +690,15 @@ func (e *env) opCloseFin(id int) {
 	}
 }
 
+func (e *env) opSetMax(n int) {
+	if e.broken || n <= e.effMax() {
+		return // only raising: lowering below the current count is not covered by the statement
+	}
+	e.hc.SetMaxConns(n)
+	e.d.Max = n
+	e.emit("setmax", "OSetMax "+hlib.Z(int64(n)), false)
+}
+
 func (e *env) opCloseIdle() {
 	if e.broken {
 		return
@@ -845,6 +856,8 @@ func (e *env) doScript1(op string) {
 		e.opCloseIdle()
 	case "cibegin":
 		e.opCloseIdleBegin()
+	case "setmax":
+		e.opSetMax(n)
 	case "expire":
 		e.opExpire()
 	case "mdecide":
@@ -870,6 +883,9 @@ func (e *env) randomOp(r *rand.Rand) {
 		add(8, "acq")
 	}
 	full := e.full()
+	if full && e.d.Max > 0 && e.d.Max < 5 && e.d.Max == e.max0 {
+		add(1, "setmax:"+strconv.Itoa(e.d.Max+1))
+	}
 	if e.d.Wait && full {
 		add(2, "short:"+strconv.Itoa(r.Intn(2)))
 		if len(e.mans) < 6 {
@@ -1004,7 +1020,7 @@ func runTrace(d desc) hlib.Case {
 	for i := range e.ops {
 		items[i] = hlib.Tuple(strings.ReplaceAll(e.ops[i].coq, "@TMO@", "1000000%Z"), e.obs[i])
 	}
-	cf := fmt.Sprintf("{| maxc := %s; waiton := %s; fifo := %s |}", hlib.Z(int64(d.Max)), hlib.Bool(d.Wait), hlib.Bool(d.Fifo))
+	cf := fmt.Sprintf("{| maxc := %s; waiton := %s; fifo := %s |}", hlib.Z(int64(e.max0)), hlib.Bool(d.Wait), hlib.Bool(d.Fifo))
 	c := hlib.Case{Coq: hlib.App("CTrace", cf, hlib.List(items)), Kind: "trace", Size: len(e.ops)}
 	if d.Block {
 		c.Kind = "trace-blockingclose"
@@ -1160,6 +1176,136 @@ func runStress(d desc) hlib.Case {
 	return c
 }
 
+// ---------------------------------------------------------------- Do level: RoundTrip's use of the pool
+
+type dconn struct {
+	fault  string
+	resp   []byte
+	closes atomic.Int32
+	d      *doRun
+}
+
+type doRun struct {
+	mu                 sync.Mutex
+	open, maxOpen, dbl int
+}
+
+func (c *dconn) Read(b []byte) (int, error) {
+	if c.fault == "eof" || len(c.resp) == 0 {
+		return 0, io.EOF
+	}
+	n := copy(b, c.resp)
+	c.resp = c.resp[n:]
+	return n, nil
+}
+func (c *dconn) Write(b []byte) (int, error) {
+	if c.fault == "write" {
+		return 0, errDial
+	}
+	return len(b), nil
+}
+func (c *dconn) Close() error {
+	c.d.mu.Lock()
+	if c.closes.Add(1) > 1 {
+		c.d.dbl++
+	} else {
+		c.d.open--
+	}
+	c.d.mu.Unlock()
+	return nil
+}
+func (c *dconn) LocalAddr() net.Addr           { return nil }
+func (c *dconn) RemoteAddr() net.Addr          { return nil }
+func (c *dconn) SetDeadline(t time.Time) error { return nil }
+func (c *dconn) SetReadDeadline(t time.Time) error {
+	if c.fault == "srd" {
+		return errDial
+	}
+	return nil
+}
+func (c *dconn) SetWriteDeadline(t time.Time) error {
+	if c.fault == "swd" {
+		return errDial
+	}
+	return nil
+}
+
+var doFaults = []string{"none", "none", "eof", "write", "garbage", "large", "acq", "swd", "srd", "close", "chunked"}
+
+// a series of HostClient.Do calls; the k-th dialled conn meets Faults[k]; afterwards the pool must be at rest:
+// ConnsCount = idle conns = conns still open
+func runDo(d desc) hlib.Case {
+	dr := &doRun{}
+	var k atomic.Int64
+	hc := &fasthttp.HostClient{Addr: "verif:80", MaxConns: d.Max, MaxResponseBodySize: 10, MaxIdleConnDuration: time.Hour, MaxConnDuration: time.Duration(d.Steps) * time.Nanosecond}
+	if d.Wait {
+		hc.MaxConnWaitTimeout = 5 * time.Millisecond
+	}
+	hc.Dial = func(string) (net.Conn, error) {
+		i := int(k.Add(1)) - 1
+		f := "none"
+		if i < len(d.Script) {
+			f = d.Script[i]
+		}
+		if f == "acq" {
+			return nil, errDial
+		}
+		c := &dconn{fault: f, d: dr}
+		one := "HTTP/1.1 200 OK\r\nContent-Length: 2\r\n\r\nok"
+		switch f {
+		case "garbage":
+			c.resp = []byte("not http\r\n\r\n")
+		case "large":
+			c.resp = []byte("HTTP/1.1 200 OK\r\nContent-Length: 50\r\n\r\n" + strings.Repeat("x", 50))
+		case "close":
+			c.resp = []byte("HTTP/1.1 200 OK\r\nConnection: close\r\nContent-Length: 2\r\n\r\nok")
+		case "chunked":
+			c.resp = []byte("HTTP/1.1 200 OK\r\nTransfer-Encoding: chunked\r\n\r\n2\r\nok\r\n0\r\n\r\n" + one + one)
+		default:
+			c.resp = []byte(strings.Repeat(one, 3)) // keep-alive: serves up to three requests, then the peer has closed
+		}
+		dr.mu.Lock()
+		dr.open++
+		if dr.open > dr.maxOpen {
+			dr.maxOpen = dr.open
+		}
+		dr.mu.Unlock()
+		return c, nil
+	}
+	r := rand.New(rand.NewSource(d.Seed))
+	for i := 0; i < d.Iters; i++ {
+		req := fasthttp.AcquireRequest()
+		resp := fasthttp.AcquireResponse()
+		req.SetRequestURI("http://verif/x")
+		switch r.Intn(4) {
+		case 0:
+			req.Header.SetMethod("POST")
+			req.SetBodyString("hello")
+		case 1:
+			req.SetConnectionClose()
+		}
+		stream := r.Intn(4) == 0
+		resp.StreamBody = stream
+		err := hc.Do(req, resp)
+		if err == nil && stream {
+			if r.Intn(2) == 0 {
+				io.Copy(io.Discard, resp.BodyStream())
+			}
+			resp.CloseBodyStream()
+		}
+		fasthttp.ReleaseRequest(req)
+		fasthttp.ReleaseResponse(resp)
+	}
+	dr.mu.Lock()
+	open, maxOpen, dbl := dr.open, dr.maxOpen, dr.dbl
+	dr.mu.Unlock()
+	c := hlib.Case{Kind: "do", Size: d.Iters}
+	c.Coq = hlib.App("CDo", hlib.Z(int64(d.Max)), hlib.Z(int64(hc.ConnsCount())), hlib.Z(int64(hc.IdleConnsCount())), hlib.Z(int64(open)), hlib.Z(int64(maxOpen)), hlib.Z(int64(dbl)))
+	c.Sig = "do " + strings.Join(d.Script, ",")
+	hc.CloseIdleConnections()
+	return c
+}
+
 // ---------------------------------------------------------------- cases
 
 func corpus() []desc {
@@ -1218,6 +1364,14 @@ func corpus() []desc {
 	c = append(c, desc{Kind: "trace", Max: 2, Wait: true, Clean: true, Script: []string{"acq", "ok:0", "rel:0", "acq", "rel:0", "expire"}})
 	// MaxConns = 0 means DefaultMaxConnsPerHost
 	add(0, false, false, "acq", "acq", "acq", "ok:1", "fail:0", "ok:0", "rel:0", "acq")
+	// SetMaxConns at run time (raised): the new limit applies to the next AcquireConn
+	add(1, false, false, "acq", "ok:0", "acq", "setmax:2", "acq", "ok:0", "acq", "setmax:3", "acq", "fail:0")
+	add(1, true, false, "acq", "ok:0", "acq", "setmax:2", "acq", "ok:0", "rel:0")
+	// every exit of RoundTrip gives its connection back (ReleaseConn) or closes it (CloseConn) exactly once
+	for i, f := range doFaults {
+		c = append(c, desc{Kind: "do", Max: 2, Seed: int64(i), Iters: 6, Script: []string{f, "none", f, f, "none", f, f, f}})
+		c = append(c, desc{Kind: "do", Max: 1, Wait: true, Seed: int64(100 + i), Iters: 6, Script: []string{"none", f, f, "none", f, f}, Steps: 1})
+	}
 	for _, max := range []int{1, 2, 3} {
 		for _, wait := range []bool{false, true} {
 			c = append(c, desc{Kind: "stress", Max: max, Wait: wait, Seed: int64(max), G: 8, Iters: 150, FailP: 15})
@@ -1229,6 +1383,13 @@ func corpus() []desc {
 func gen(r *rand.Rand, i int) desc {
 	if i%25 == 24 {
 		return desc{Kind: "stress", Max: 1 + r.Intn(3), Wait: r.Intn(2) == 0, Fifo: r.Intn(2) == 0, Seed: r.Int63n(1 << 30), G: 4 + r.Intn(8), Iters: 100, FailP: r.Intn(40)}
+	}
+	if i%10 == 3 {
+		d := desc{Kind: "do", Max: 1 + r.Intn(3), Wait: r.Intn(3) == 0, Seed: r.Int63n(1 << 30), Iters: 3 + r.Intn(8), Steps: r.Intn(2)}
+		for k := 0; k < 12; k++ {
+			d.Script = append(d.Script, hlib.Pick(r, doFaults))
+		}
+		return d
 	}
 	d := desc{Kind: "trace", Max: 1 + r.Intn(3), Wait: r.Intn(4) != 0, Fifo: r.Intn(2) == 0, Seed: r.Int63n(1 << 40), Steps: 8 + r.Intn(28)}
 	if r.Intn(6) == 0 {
@@ -1263,6 +1424,9 @@ func gen(r *rand.Rand, i int) desc {
 func run(d desc) hlib.Case {
 	if d.Kind == "stress" {
 		return runStress(d)
+	}
+	if d.Kind == "do" {
+		return runDo(d)
 	}
 	return runTrace(d)
 }
